@@ -21,6 +21,9 @@ LABEL_FLOORS = {'deg>=3': 0.10, 'rep-end1-multi': 0.03, 'loop': 0.05, 'ground': 
 
 @st.composite
 def case_strategy(draw, big=False):
+    if draw(st.integers(0, 6)) == 0:
+        # an arc or helix with wires on its ends, or an arc closed by its chord (a loop of two objects)
+        return draw(gen.curve_antenna(env_kinds=('free', 'free', 'ideal'), nsrc=(1, 3)))
     case = draw(gen.antenna(env_kinds=('free', 'free', 'ideal'), max_wires=6 if big else 5, max_seg=6 if not big else 10,
                             tapers=False, nsrc=(1, 3), star=5, allow_two=True))
     if len(case['objs']) >= 2 and draw(st.integers(0, 3)) == 0:
@@ -94,6 +97,11 @@ def check(case):
         nt = True
     if build.has_ground(case):
         labels.append('ground')
+    if any(o['obj']['type'] != 'wire' for o in topo.objs):
+        labels.append('curve')
+    if len(topo.objs) == 2 and all(len(j) == 2 for j in topo.junctions) and len(topo.junctions) == 2:
+        labels.append('two-object-loop')
+        nt = True
     if any(x.get('tag') is not None for x in case.get('xforms') or []):
         labels.append('assembled-by-translation')
     fails = []
